@@ -43,4 +43,42 @@ theorem reaction_split_at_dot :
 /-- ring number 0 is rejected -/
 theorem ring_number_zero_rejected : smiles (str "C0CC0") = .error (.lib "IncorrectSmiles" "number starts with 0") := rfl
 
+/-- ring bonds written after a branch (`C(C)1CC1`) are accepted and built, but no syntax tree of the OpenSMILES grammar
+    (`atom ringbond* branch*`) prints to that token list: the full accept ⇔ language statement with ring closures is false -/
+theorem acceptIffRingDiscipline_false : ¬ AcceptIffRingDiscipline := by
+  intro h
+  have hacc : Accepts [tC, .lpar, tC, .rpar, .cyc 1, tC, tC, .cyc 1] := ⟨_, rfl, _, _, rfl, rfl⟩
+  obtain ⟨c, g, hc, _⟩ := (h _ (by decide)).mp hacc
+  have := printR_noRingAfterClose c
+  rw [← hc] at this
+  exact absurd this (by decide)
+
+open ChythonModel.Model.Valence ChythonModel.Spec in
+/-- nitrogen with four single bonds: OpenSMILES says one hydrogen (next normal valence 5); the reader reports a valence
+    error (hydrogens `None`) -/
+theorem organicHydrogensOpenSmiles_false : ¬ OrganicHydrogensOpenSmiles := by
+  intro h
+  have := h 7 (by decide) [(1, 6), (1, 6), (1, 6), (1, 6)] (by decide)
+  rw [organic_hydrogens_second_period_above 7 (by decide) _ (by decide) 3 (by decide) (by decide)] at this
+  revert this
+  decide
+
+open ChythonModel.Model.Valence in
+/-- `[CH2]` is built as CH4: the written count of a bracket atom is not always kept -/
+theorem bracketHydrogensWritten_false : ¬ BracketHydrogensWritten := by
+  intro h
+  have := h ⟨6, 0, false, []⟩ 2
+  revert this
+  decide +kernel
+
+/-- hydrogens / radical marks of the molecule a string is read to -/
+def hydOf (s : Str) : Option (List (Nat × Option Nat × Bool)) :=
+  match smiles s with
+  | .ok (.mol _ m) => (molHydrogens m).toOption
+  | _ => none
+
+/-- the same on whole strings: `[CH2]` carries 4 hydrogens, `[Cl]` is built as HCl, in the model as in the code -/
+theorem open_valence_two_replaced : hydOf (str "[CH2]") = some [(1, some 4, false)] := by decide +kernel
+theorem halogen_atom_replaced : hydOf (str "[Cl]") = some [(1, some 1, false)] := by decide +kernel
+
 end ChythonModel.Findings.C03
